@@ -37,6 +37,13 @@ func c05Run(arg string) explore.HistFn {
 	if strings.Contains(arg, "deep") {
 		maxP, maxS = 4, 4
 	}
+	// "ct": the publisher speaks MQTT 5 and numbers its publishes per topic in the Content
+	// Type; the v5 subscriber must be sent the properties of the LATEST retained publish,
+	// also when payload and QoS did not change (pools: publishes as above, one subscribe)
+	ct := strings.Contains(arg, "ct")
+	if ct {
+		maxS = 1
+	}
 	return func(hist []string) explore.HistResult {
 		h := newH(world.Config{Caps: func(c *mqtt.Capabilities) {
 			if !ra {
@@ -44,7 +51,13 @@ func c05Run(arg string) explore.HistFn {
 			}
 		}})
 		m := &c05Model{retained: map[string]string{}, subs: map[string]bool{}}
-		h.connect("p", world.ConnectPacket("p", 4, true))
+		cnt := map[string]int{}
+		pver := byte(4)
+		if ct {
+			pver = 5
+		}
+		perTopic := map[string]int{}
+		h.connect("p", world.ConnectPacket("p", pver, true))
 		h.connect("s", world.ConnectPacket("s", 5, true))
 		h.connect("t", world.ConnectPacket("t", 4, true))
 		pid := uint16(10)
@@ -56,6 +69,13 @@ func c05Run(arg string) explore.HistFn {
 				m.pubs++
 				pk := pub(topic, payload, 0, 0)
 				pk.Retain = retain
+				val := payload
+				if ct {
+					perTopic[topic]++
+					c := fmt.Sprintf("c%d", perTopic[topic]%3)
+					pk.Props = ref.Props{{ID: ref.PContentType, Str: c}}
+					val += "|" + c
+				}
 				h.do("p", pk)
 				h.poll("s")
 				h.poll("t")
@@ -63,7 +83,10 @@ func c05Run(arg string) explore.HistFn {
 					if payload == "" {
 						delete(m.retained, topic)
 					} else {
-						m.retained[topic] = payload
+						if old, ok := m.retained[topic]; ok && ct && strings.HasPrefix(old, payload+"|") {
+							h.count(cnt, "retained_republished_with_same_payload_other_properties", 1)
+						}
+						m.retained[topic] = val
 					}
 				}
 			case "sub":
@@ -83,6 +106,9 @@ func c05Run(arg string) explore.HistFn {
 				if !ref.IsShare(filter) && (rh == 0 || (rh == 1 && !existed)) {
 					for t, p := range m.retained {
 						if ref.Match(filter, t) {
+							if who == "t" && ct {
+								p = p[:strings.IndexByte(p, '|')] // an MQTT 3 subscriber sees no properties
+							}
 							want[t+"="+p]++
 						}
 					}
@@ -96,7 +122,17 @@ func c05Run(arg string) explore.HistFn {
 					if p.Type != ref.PUBLISH {
 						continue
 					}
-					have[p.Topic+"="+string(p.Payload)]++
+					k := p.Topic + "=" + string(p.Payload)
+					if ct && who == "s" {
+						c := ""
+						for _, pr := range p.Props {
+							if pr.ID == ref.PContentType {
+								c = pr.Str
+							}
+						}
+						k += "|" + c
+					}
+					have[k]++
 					if !p.Retain {
 						h.violate("c05:retained-delivery-without-retain-flag", "retained delivery of %q on SUBSCRIBE %s has retain=0", p.Topic, filter)
 					}
@@ -164,8 +200,10 @@ func c05Run(arg string) explore.HistFn {
 			}
 			next = sortedStrings(next)
 		}
-		key := h.W.State() + fmt.Sprintf("|model:%v|%v|%d,%d,%d", m.retained, explore.SortedKeys(m.subs), m.pubs, m.nsubs, m.unsubs)
-		return h.finish(key, next)
+		key := h.W.State() + fmt.Sprintf("|model:%v|%v|%d,%d,%d|%v", m.retained, explore.SortedKeys(m.subs), m.pubs, m.nsubs, m.unsubs, perTopic)
+		r := h.finish(key, next)
+		r.Counters = cnt
+		return r
 	}
 }
 
@@ -260,10 +298,16 @@ func init() {
 		explore.IterateDFS(c, "c05race", "", bounds, 12*time.Second)
 		explore.IterateDFS(c, "c05race", "presub", bounds, 12*time.Second)
 		if c.Quick() {
+			if st := explore.RunBFS(c, "c05", "ra=1,ct", 0, 20*time.Second); st != nil {
+				for k, v := range st.Counters {
+					c.Rep.Count("c05_"+k, v)
+				}
+			}
 			explore.RunBFS(c, "c05", "ra=1", 0, 50*time.Second)
 			explore.RunBFS(c, "c05", "ra=0", 4, 15*time.Second)
 		} else {
 			explore.RunBFS(c, "c05", "ra=1,deep", 0, 8*time.Minute)
+			explore.RunBFS(c, "c05", "ra=1,deep,ct", 0, 2*time.Minute)
 			explore.RunBFS(c, "c05", "ra=0", 0, 3*time.Minute)
 		}
 	})
